@@ -14,13 +14,14 @@ EXTENDS Naturals, Sequences, FiniteSets, TLC, Json
 CONSTANTS MaxModels, Enabled, Shard, NShards
 
 \* name shapes: <<class name, table name, what the code derives as schema key: Title(Replace(table, "_tbl", ""))>>
-Shapes == {"Config_config_tbl", "FooBar_foo_bar", "node_node", "Other_other_tbl", "Xy_xy"}
+\* Pet / Label: names that END in one of the characters of "_tbl" (a suffix must be removed as a suffix, not as a character set)
+Shapes == {"Config_config_tbl", "FooBar_foo_bar", "node_node", "Other_other_tbl", "Xy_xy", "Pet_pet_tbl", "Label_label"}
 NameOf(s) == CASE s = "Config_config_tbl" -> "Config" [] s = "FooBar_foo_bar" -> "FooBar" [] s = "node_node" -> "node"
-               [] s = "Other_other_tbl" -> "Other" [] s = "Xy_xy" -> "Xy"
+               [] s = "Other_other_tbl" -> "Other" [] s = "Xy_xy" -> "Xy" [] s = "Pet_pet_tbl" -> "Pet" [] s = "Label_label" -> "Label"
 DerivedKey(s) == CASE s = "Config_config_tbl" -> "Config" [] s = "FooBar_foo_bar" -> "Foo_Bar" [] s = "node_node" -> "Node"
-                   [] s = "Other_other_tbl" -> "Other" [] s = "Xy_xy" -> "Xy"
+                   [] s = "Other_other_tbl" -> "Other" [] s = "Xy_xy" -> "Xy" [] s = "Pet_pet_tbl" -> "Pet" [] s = "Label_label" -> "Label"
 ShapeIdx(s) == CASE s = "Config_config_tbl" -> 0 [] s = "FooBar_foo_bar" -> 1 [] s = "node_node" -> 2
-                 [] s = "Other_other_tbl" -> 3 [] s = "Xy_xy" -> 4
+                 [] s = "Other_other_tbl" -> 3 [] s = "Xy_xy" -> 4 [] s = "Pet_pet_tbl" -> 5 [] s = "Label_label" -> 6
 Cruds == {"C", "R", "D", "CR", "CD", "RD", "CRD"}
 Has(crud, l) == CASE l = "C" -> crud \in {"C", "CR", "CD", "CRD"} [] l = "R" -> crud \in {"R", "CR", "RD", "CRD"}
                   [] l = "D" -> crud \in {"D", "CD", "RD", "CRD"}
